@@ -135,7 +135,7 @@ IF_PRIMS = ("iftrue", "iffalse", "ifnum", "ifdim", "ifodd", "ifcase", "ifx", "if
 EXPANDABLE_PRIMS = IF_PRIMS + ("else", "fi", "or", "csname", "expandafter", "value", "number")
 STOMACH_PRIMS = ("relax", "def", "gdef", "let", "begingroup", "endgroup", "par", "endcsname",
                  "newcommand", "renewcommand", "newcounter", "setcounter", "addtocounter",
-                 "stepcounter", "newif")
+                 "stepcounter", "newif", "newcount")
 FI_CODE, ELSE_CODE, OR_CODE, IF_CODE = 2, 3, 4, 1          # tw 489
 FI_OR_ELSE = {"fi": FI_CODE, "else": ELSE_CODE, "or": OR_CODE}
 
@@ -1018,7 +1018,17 @@ class MiniTeX(object):
             self.execute(("ch", m[1], m[2]))
             return
         if m[0] == "count":
-            raise TeXError("register assignment syntax is outside the sub-language")
+            # <count register> <optional equals> <number>  (tw 1236-1237).  The generators assign
+            # registers at brace level 0 only, where a local assignment is permanent.
+            if self.save_stack:
+                raise TeXError("register assignment inside a group is outside the sub-language")
+            t = self.get_x_token("scanning an assignment")
+            while t == SPACE:
+                t = self.get_x_token("scanning an assignment")
+            if t != ("ch", "=", 12):
+                self.back_input(t)
+            self.counters[m[1]] = self.scan_int()
+            return
         name = m[1]
         if name == "relax" or name == "par":
             return
@@ -1064,6 +1074,12 @@ class MiniTeX(object):
                 raise TeXError("counter %s already defined" % cname)
             self.counters[cname] = 0
             self.eqtb["c@" + cname] = [("count", cname), 1]
+        elif name == "newcount":
+            # plain TeX's \newcount\name: a fresh count register, initially 0 (allocation is global)
+            target = self.get_r_token()
+            key = "count:" + target[1]
+            self.counters[key] = 0
+            self.eqtb[target[1]] = [("count", key), 1]
         elif name == "stepcounter":
             cname = self.name_of(self.read_undelimited("\\stepcounter"))
             if cname not in self.counters:
